@@ -35,7 +35,7 @@ from .interp import (
     ReturnSig,
     Unsupported,
 )
-from .sym import NumericUndecided, TooManyLeaves, SObj, SMap
+from .sym import NumericUndecided, TooManyLeaves, UnsupportedOp, SObj, SMap
 
 REGISTRY = {}
 
@@ -233,7 +233,7 @@ def verify(contract, case=None, max_seconds=None):
                 pass
             except NeedFork as e:
                 res.undecided.append(("internal: NeedFork escaped: %s" % e, list(st.trace)))
-            except (Unsupported, NumericUndecided, TooManyLeaves, NotImplementedError) as e:
+            except (Unsupported, UnsupportedOp, NumericUndecided, TooManyLeaves, NotImplementedError) as e:
                 res.undecided.append(("%s: %s" % (type(e).__name__, e), list(st.trace)))
             except RecursionError:
                 res.undecided.append(("recursion limit", list(st.trace)))
